@@ -12,12 +12,13 @@ Declarative OFX wire grammar (DESIGN 6.2) and token-level well-nestedness (DESIG
 `ws` over the `str.isspace` set; tags over `[A-Z0-9._]+`; `d` non-empty, trimmed, free of `<`;
 CDATA-able: no `&`, no `]]>`, no `\n`.
 
-`strict = false` is the full grammar of DESIGN 6.2.  `strict = true` adds the two local side conditions
-the parser needs (C02 findings):
-  (G2) no whitespace between `]]>` and the element's own end tag;
+`strict = false` is the full grammar of DESIGN 6.2.  `strict = true` adds the one local side condition
+the parser needs (C02 finding):
   (G3) the last child of an aggregate is not a data element bearing the aggregate's own tag.
-(A third guard G1 — at most one `]]>` per line — was needed while the CDATA group was greedy; repaired in /repo by
-`fix: CDATA element data ends at the first ]]>`.)
+(Two more guards are gone: G1 — at most one `]]>` per line — was needed while the CDATA group was greedy; repaired in
+/repo by `fix: CDATA element data ends at the first ]]>`.  G2 — no whitespace between `]]>` and the element's own end
+tag — was needed while the end tag had to follow the CDATA section immediately; repaired in /repo by
+`fix: white space may follow a CDATA section`: the `ws` of the two CDATA productions is in both grammars.)
 -/
 import OfxModel.Ofx.Lexer
 import OfxModel.Ofx.Tree
@@ -60,7 +61,6 @@ mutual
     | cdataOpen (t d : Str) : tagOk t = true → dataOk d = true → cdataOk d = true →
         Renders strict (Tree.leaf t d) (startTag t ++ cdataOf d)
     | cdataClosed (t d w : Str) : tagOk t = true → dataOk d = true → cdataOk d = true → ws w = true →
-        (strict = true → w = []) →
         Renders strict (Tree.leaf t d) (startTag t ++ (cdataOf d ++ (w ++ endTag t)))
     | agg (t w0 : Str) (cs : List Tree) (body : Str) : tagOk t = true → ws w0 = true →
         RendersList strict cs body →
@@ -121,7 +121,7 @@ mutual
   /-- the side conditions of the grammar -/
   def ok (strict : Bool) : RTree → Bool
     | leaf t d w1 w2 _ a => tagOk t && dataOk d && ws w1 && ws w2 && ws a
-    | cdata t d w close a => tagOk t && dataOk d && cdataOk d && ws w && ws a && (!(strict && close) || w.isEmpty)
+    | cdata t d w _ a => tagOk t && dataOk d && cdataOk d && ws w && ws a
     | agg t w0 kids a => tagOk t && ws w0 && ws a && oks strict kids &&
         (!strict || (match (trees kids).getLast? with | some c => leafTag c != some t | none => true))
   def oks (strict : Bool) : List RTree → Bool
